@@ -28,13 +28,10 @@ def fresh_per_iteration(run, rule, ci_name, mod, fn, describe=True):
     n = 0
     for lp in [l for l in ast.walk(fn) if isinstance(l, (ast.For, ast.While))]:
         for name, cs in creations.items():
-            grows = [c for c in ast.walk(lp) if isinstance(c, ast.Call) and isinstance(c.func, ast.Attribute) and c.func.attr in ('append', 'extend', 'update', 'add', 'fill')
-                     and isinstance(c.func.value, ast.Name) and c.func.value.id == name]
-            grows += [s for s in ast.walk(lp) if isinstance(s, (ast.Assign, ast.AugAssign)) and any(
-                isinstance(t, ast.Subscript) and isinstance(t.value, ast.Name) and t.value.id == name
-                for t in (s.targets if isinstance(s, ast.Assign) else [s.target]))]
-            # locals of the loop that directly hold the object (a record dict / tuple built around it)
+            # locals of the loop that directly hold the object (a record dict / tuple built around it), or -- for arrays -- a view of it
+            is_array = all(isinstance(c.value, ast.Call) and (dotted(c.value.func) or '').startswith(('np.', 'numpy.')) for c in cs)
             held = {name}
+            views = {name}
             grew_ = True
             while grew_:
                 grew_ = False
@@ -44,7 +41,20 @@ def fresh_per_iteration(run, rule, ci_name, mod, fn, describe=True):
                         parts = [v] if isinstance(v, ast.Name) else (list(v.values) if isinstance(v, ast.Dict) else (list(v.elts) if isinstance(v, (ast.Tuple, ast.List)) else []))
                         if any(isinstance(h, ast.Name) and h.id in held for h in parts):
                             held.add(s.targets[0].id)
+                            if isinstance(v, ast.Name) and v.id in views:
+                                views.add(s.targets[0].id)
                             grew_ = True
+                        elif is_array and isinstance(v, ast.Subscript) and isinstance(v.value, ast.Name) and v.value.id in views \
+                                and (isinstance(v.slice, ast.Slice) or (isinstance(v.slice, ast.Tuple) and any(isinstance(x, ast.Slice) for x in v.slice.elts))):
+                            # a slice of a numpy array is a view of the same memory
+                            held.add(s.targets[0].id)
+                            views.add(s.targets[0].id)
+                            grew_ = True
+            grows = [c for c in ast.walk(lp) if isinstance(c, ast.Call) and isinstance(c.func, ast.Attribute) and c.func.attr in ('append', 'extend', 'update', 'add', 'fill')
+                     and isinstance(c.func.value, ast.Name) and c.func.value.id in views]
+            grows += [s for s in ast.walk(lp) if isinstance(s, (ast.Assign, ast.AugAssign)) and any(
+                isinstance(t, ast.Subscript) and isinstance(t.value, ast.Name) and t.value.id in views
+                for t in (s.targets if isinstance(s, ast.Assign) else [s.target]))]
             escapes = []
             for s in ast.walk(lp):
                 # Y.append(<... name ...>)  /  Y[k] = <... name ...>  /  self.f = name   (not into the object itself)
